@@ -17,7 +17,12 @@ BIN_DIR=/verif/target/fuzz/x86_64-unknown-linux-gnu/release
 export CARGO_NET_OFFLINE=true
 grep -q "^$ID " $FUZZ/campaigns.txt || exit 0
 LOG=/verif/target/build-fuzz-$ID-$$.log
-if ! (cd /verif/harness && RUSTFLAGS="--cfg y_crdt_y_crdt_verif" cargo +nightly fuzz build --fuzz-dir $FUZZ --target-dir /verif/target/fuzz >"$LOG" 2>&1); then
+# the semantic target keeps debug assertions (a failed assertion of yrs on a valid program is a
+# failure); the decoders target is built like a shipping build (-O: no debug assertions), because
+# debug-only overflow / range assertions on garbage are not violations of C10
+if [ "$ID" = "C10" ]; then BUILD="-O decoders"; TDIR=/verif/target/fuzz-opt; else BUILD="prop"; TDIR=/verif/target/fuzz; fi
+BIN_DIR=$TDIR/x86_64-unknown-linux-gnu/release
+if ! (cd /verif/harness && RUSTFLAGS="--cfg y_crdt_y_crdt_verif" cargo +nightly fuzz build $BUILD --fuzz-dir $FUZZ --target-dir $TDIR >"$LOG" 2>&1); then
   echo "note: property=$ID coverage-guided campaign skipped, the libFuzzer targets did not build:"
   grep -E "^error" -A6 "$LOG" | head -20
   rm -f "$LOG"; exit 0
@@ -47,7 +52,7 @@ PY
   extra=""
   if [ "$target" = "decoders" ]; then extra="-malloc_limit_mb=512 -rss_limit_mb=3072 -timeout=25"; maxlen=65536; else extra="-rss_limit_mb=4096 -timeout=120"; maxlen=262144; fi
   t0=$(date +%s)
-  (cd "$art" && ASAN_OPTIONS=detect_leaks=0:detect_odr_violation=0 VH_FUZZ=$ID:$part $BIN_DIR/$target -artifact_prefix="$art/" -runs=$runs -max_len=$maxlen -len_control=0 \
+  (cd "$art" && ASAN_OPTIONS=detect_leaks=0:detect_odr_violation=0:allocator_may_return_null=1:max_allocation_size_mb=4096 VH_FUZZ=$ID:$part $BIN_DIR/$target -artifact_prefix="$art/" -runs=$runs -max_len=$maxlen -len_control=0 \
       -seed=$SEED -jobs=$JOBS -workers=$JOBS -print_final_stats=1 -detect_leaks=0 $extra "$work" > "$art/driver.log" 2>&1)
   rc=$?
   t1=$(date +%s)
